@@ -50,12 +50,14 @@ package metadata
 //@   props C15 C12
 //@   locks m
 //@   requires m != nil
+//@   ensures res0 == nil <==> (has(TargetBoolValues, value) && TargetBoolValues[value])
 //@   ensures res0 == nil ==> m.valuesBool[value] == v && has(m.valuesBool, value)
 
 //@ func (*Metadata).SetStr
 //@   props C15 C12
 //@   locks m
 //@   requires m != nil
+//@   ensures res0 == nil <==> (has(TargetStrValues, value) && TargetStrValues[value] != nil)
 //@   ensures res0 == nil ==> m.valuesStr[value] == v && has(m.valuesStr, value)
 
 //@ func (*Metadata).GetInt
@@ -80,12 +82,38 @@ package metadata
 //@ func Path
 //@   props C15 C12
 
-// ResetEntry / Clear only touch the three protected maps (and read the registries).
+// resetDone[m]: entries that a ResetEntry call of this thread has returned to
+// their initial state (ghost history, like intAdded).
+//@ ghost resetDone gmap[ref]set[string]
+//@ pred RegisteredBool(name string) := has(TargetBoolValues, name) && TargetBoolValues[name]
+//@ pred RegisteredStr(name string) := has(TargetStrValues, name) && TargetStrValues[name] != nil
+
+// ResetEntry returns one registered entry to its initial state: booleans to
+// false, counters to zero (or absent when not zero-initialised), strings to ""
+// (or absent / left alone, per their declared reset action).
 //@ func (*Metadata).ResetEntry
 //@   props C15 C14 C12
 //@   locks m
 //@   requires m != nil
+//@   effect resetDone := ite(res0 == nil, upd(resetDone, m, union1(resetDone[m], entry)), resetDone)
+//@   ensures [known-entry C14] res0 == nil <==> (RegisteredBool(entry) || RegisteredInt(entry) || RegisteredStr(entry))
+//@   ensures [bool-false C14] RegisteredBool(entry) ==> has(m.valuesBool, entry) && !m.valuesBool[entry]
+//@   ensures [int-zero C14] !RegisteredBool(entry) && RegisteredInt(entry) && TargetIntValues[entry].InitZero ==> has(m.valuesInt, entry) && m.valuesInt[entry] == 0
+//@   ensures [int-absent C14] !RegisteredBool(entry) && RegisteredInt(entry) && !TargetIntValues[entry].InitZero ==> !has(m.valuesInt, entry)
+
+// Clear resets every registered entry.
 //@ func (*Metadata).Clear
 //@   props C15 C14 C12
 //@   locks m
 //@   requires m != nil
+//@   modifies ghost resetDone
+//@   invariant 0: (forall k string :: has($visited, k) && RegisteredBool(k) ==> has(resetDone[m], k)) && (forall x ref :: x != m ==> resetDone[x] == old(resetDone[x]))
+//@   invariant 1: (forall k string :: RegisteredBool(k) ==> has(resetDone[m], k)) && (forall k string :: has($visited, k) && RegisteredInt(k) ==> has(resetDone[m], k)) && (forall x ref :: x != m ==> resetDone[x] == old(resetDone[x]))
+//@   invariant 2: (forall k string :: RegisteredBool(k) || RegisteredInt(k) ==> has(resetDone[m], k)) && (forall k string :: has($visited, k) && RegisteredStr(k) ==> has(resetDone[m], k)) && (forall x ref :: x != m ==> resetDone[x] == old(resetDone[x]))
+//@   ensures [every-registered-entry-reset C14] forall k string :: RegisteredBool(k) || RegisteredInt(k) || RegisteredStr(k) ==> has(resetDone[m], k)
+//@   ensures [only-this-object C14] forall x ref :: x != m ==> resetDone[x] == old(resetDone[x])
+
+//@ func New
+//@   props C14 C12
+//@   modifies ghost resetDone
+//@   ensures res0 != nil && fresh(res0)
